@@ -3,7 +3,7 @@ from pyvc.verify import Post, Case, Equiv, NativeFacts
 from contracts import common
 
 PROPERTY = 'C04'
-REF_MODULES = ['ref_core']
+REF_MODULES = ['ref_core', 'ref_t', 'h_path', 'ref_extra']
 
 
 def config(cfg):
@@ -40,6 +40,15 @@ def contracts():
             self.items = raise_scan.items(v.repo)
             NativeFacts.run(self, v)
     cs.append(_Scan('C04.raise-sites', [], func='every raise statement in glom/*.py'))
+
+    class _ExceptScan(NativeFacts):
+        def run(self, v):
+            self.items = raise_scan.except_items(v.repo)
+            NativeFacts.run(self, v)
+    cs.append(_ExceptScan('C04.except-sites', [], func='every except clause in glom/*.py'))
+    # the T-expression walk is where lookup failures become PathAccessError and everything else passes through (contract shared with C02)
+    from contracts import C02
+    cs += common.shared(C02, ['core._t_eval'])
     cs.append(NativeFacts('C04.class-facts', [
         (n + '<=GlomError', 'issubclass(%s, GlomError)' % n, (lambda f, n=n: f.issub(n, 'core.GlomError')))
         for n in ('core.PathAccessError', 'core.PathAssignError', 'core.CoalesceError', 'core.BadSpec', 'core.UnregisteredTarget', 'matching.MatchError',
